@@ -421,8 +421,7 @@ def obs_x06(job: dict) -> Any:
                         a, _ = to_arg(info, el, untag(info["vals"][0]))
                     else:
                         a = 1 if el in (int, float) else True if el is bool else "x"
-                    if prm.default is inspect._empty or True:
-                        kwargs[pn] = [a] if lst else a
+                    kwargs[pn] = [a] if lst else a
                 req, exc = loop.run_until_complete(call(inst, mn, cap, kwargs))
                 if req is not None:
                     for owner, path in job["ops"].items():
